@@ -12,20 +12,33 @@ from harness.rigs import link as rig
 MANIFEST = {
     "text": "Lean 4 proof, for every network of wired links and wireless channels, every history of ticks and actions, and every tree "
             "of transmissions (sends nested inside deliveries to any depth, over any mix of links, floods, interfaces going up and down "
-            "even in the middle of a delivery), that the model of Link/AirSpace accounting keeps every load within its capacity after "
-            "every send_frame and at the end, that a frame that does not fit is dropped at the sender with nothing changed, that a frame "
-            "is handed to a receiving interface only while both end interfaces are enabled (wireless: only enabled other interfaces "
-            "receive), and that a tick resets every load to zero. Tie: admission tests, order of reserve/deliver/roll-back and of "
-            "stamp/admit in the three send_frame methods, the reset and is_up shapes regenerated from the source (Gen/Link.lean, "
-            "obligations C18_gen_*) + differential rig R-link that records the real call tree of send_frame on generated networks "
-            "(tight bandwidths, ARP+ping, floods through switches, router hops, wireless, FTP, bursts, interface toggles) and replays it "
-            "through the model, comparing verdicts and loads as exact byte counts. Deepened: the data carried per link / sent per channel is "
-            "proved within capacity for every tick of every history with no side condition (F-40 repaired), per frequency name when two names "
-            "share a hz, and the far interface's answer is compared with C08's acceptance model.",
+            "even in the middle of a delivery, deliveries cut short by an exception anywhere: the reservation then stays), that the model "
+            "of Link/AirSpace accounting keeps every load within its capacity after every send_frame and at the end, that a frame that "
+            "does not fit is dropped at the sender with nothing changed, that a frame is handed to a receiving interface only while both "
+            "end interfaces are enabled and only if load + size <= the capacity then in force (no hypothesis at all), and that a tick "
+            "resets every load to zero; the data carried per link / sent per channel is within capacity in every tick of every history, "
+            "per frequency name when two names share a hz. Capacity changes between actions (link.bandwidth reassigned, "
+            "set_frequency_max_capacity_mbps in mid-episode) are modelled: 'load <= capacity' then needs the explicit decidable side "
+            "condition that no capacity is put below the load of the moment (counterexample proved); without it, for every bound C the data "
+            "admitted against capacities <= C is <= C in every tick (so a link carries no more than the largest bandwidth it had while "
+            "admitting). Floats: the accounting routed through any rounding that returns representable results unchanged and is monotone "
+            "is proved EQUAL to the natural-number model on every tree while bandwidths are below 2^53 bytes (sizes are whole bytes * 2^-17 "
+            "Mbit, so no operation rounds: epsilon = 0); the bandwidth enters by its floor. Tie: admission tests, order of "
+            "reserve/deliver/roll-back and of stamp/admit in the send_frame methods, the reset and is_up shapes regenerated from the source "
+            "(Gen/Link.lean, obligations C18_gen_*), plus regenerated INVENTORIES each equal to a list in the proof: every class of the "
+            "NetworkInterface hierarchy that defines send_frame/enable/disable with its step order, every writer of a bandwidth / frequency "
+            "capacity, every try statement under simulator/network and simulator/system, every caller that turns a payload into a request, "
+            "every call that can toggle an interface. Differential rig R-link records the real call tree of send_frame (wrapping exactly "
+            "the classes of the inventory, cross-checked against the classes at run time) on generated networks (tight bandwidths, ARP+ping, "
+            "floods through switches, router hops, wireless, FTP, bursts, interface toggles by the real Terminal / the real C2 beacon / a "
+            "remote shutdown / a test double, exceptions raised inside deliveries, capacity changes in mid-tick, bandwidth = exact sum of k "
+            "frames and one ulp beside it) and replays it through the model, comparing verdicts and loads as exact byte counts; every real "
+            "(float) admission test is also compared with exact rational arithmetic.",
     "note": "C18-specific: frame sizes (JSON length of the frame, F-9) and the far interface's accept/reject answer are inputs to the "
-            "model, not predicted; float arithmetic is outside the model and is checked exact by the rig on every load it reads.",
+            "model, not predicted (the answer is compared with C08's acceptance model); IEEE-754 behaviour (exact when representable, "
+            "monotone) is assumed, not verified; which software raises is not predicted (an exception is an input event).",
     "technique": "Lean 4 theorems over an executable model of link/airspace accounting with nested transmissions; model tied by "
-                 "regenerated tables and a differential rig",
+                 "regenerated tables and inventories and a differential rig",
     "design_ref": "5/C18",
 }
 MODULES = ["PrimaiteModel.Props.C18", "PrimaiteModel.Props.C18Accept", "PrimaiteModel.Props.C18Float"]
@@ -83,7 +96,7 @@ def run(ctx: Ctx):
         inv = x_link.iface_methods()
     except Exception as e:          # the extractor no longer recognises a shape: already reported by extract:Link
         inv = None
-        ctx.notes.append(f"interface inventory unavailable: {type(e).__name__}: {e}")
+        ctx.oblige("interface inventory readable", "extractor", False, f"{type(e).__name__}: {e}")
     if inv is not None:
         runtime, _ = rig.runtime_iface_methods()
         listed = {(c, f, m) for c, f, m, _ in inv}
@@ -97,7 +110,7 @@ def run(ctx: Ctx):
                        "2-3 wireless routers on one or two frequencies}, per-link bandwidth / per-frequency capacity from below one frame to "
                        "100 Mbit (wireless: optionally two frequency names of different capacity on one hz), op sequence of ping / arp / raw "
                        "bursts (unicast, broadcast) / ftp / interface disable-enable / tick / tripwire (interface toggled during a delivery by a "
-                       "test double) / rcmd (interface toggled during a delivery by the real Terminal executing a remote command)); non-trivial when some send is refused for capacity or link state, "
+                       "test double, or an exception raised / raised-and-caught inside a delivery) / rcmd (interface toggled or node powered off during a delivery by the real Terminal executing a remote command) / c2 (the same by the real C2 beacon) / setbw, setcap (capacity reassigned in mid-episode) / bfill, wbfill (capacity := exact sum of k stamped frames, or one ulp beside it)); non-trivial when some send is refused for capacity or link state or lost to an exception, "
                        "or the call tree nests at least two sends deep; distinct by canonical JSON of topology and ops")
     cases = []
     for f in sorted((VERIF / "corpus" / "C18").glob("*.json")):
